@@ -431,15 +431,15 @@ def str_of_int(it, v):
     an atom with provenance (int(str(n)) == n is the assumed law, DESIGN 2.12)."""
     # enumerate only when the path condition confines n to a small window (decided by entailment,
     # never by a solver model: the exploration must replay deterministically)
+    cache = it.ctx.__dict__.setdefault('strofint_cache', {})
+    hit = cache.get(v.t.get_id())
+    if hit is not None and hit[0].eq(v.t):
+        return XStr([(True, hit[1])])       # str() of the same int is the same text (same atom)
     if not it.ctx.feasible(z3.Or(v.t < 0, v.t > 9)):
         try:
             return str(it.ctx.decide_by_model(v.t, cap=11))
         except EngineError:
             pass
-    cache = it.ctx.__dict__.setdefault('strofint_cache', {})
-    hit = cache.get(v.t.get_id())
-    if hit is not None and hit[0].eq(v.t):
-        return XStr([(True, hit[1])])       # str() of the same int is the same text
     name = it.ctx.fresh_name('strofint')
     digits = '0123456789' if not it.ctx.feasible(v.t < 0) else '-0123456789'
     a = Atom(name, only=digits, minlen=1, int_of=v, note='str(int)')
@@ -532,6 +532,13 @@ def str_eq(it, a, b):
                 return False
             return mk_bool(atom.t == z3.StringVal(lit))
         return mk_bool(x.term() == z3.StringVal(lit))
+    # a common unconditional last / first piece (the very same atom object) cancels:
+    # x + t == y + t  <=>  x == y
+    while a.segs and b.segs and a.segs[-1][0] is True and b.segs[-1][0] is True and \
+            not isinstance(a.segs[-1][1], str) and a.segs[-1][1] is b.segs[-1][1]:
+        a, b = XStr(a.segs[:-1]), XStr(b.segs[:-1])
+        if not a.segs or not b.segs or all(isinstance(p, str) for _, p in a.segs + b.segs):
+            return str_eq(it, a.simplify(), b.simplify())
     # both structured: identical structure decides it
     if len(a.segs) == len(b.segs) and all(
             (g1 is g2 or (not isinstance(g1, bool) and not isinstance(g2, bool) and g1.eq(g2))) and
